@@ -54,6 +54,8 @@ def inter_event(G, conf, trip):
         n_checked += 2
         for u in G.nodes():
             cmp('inter_event_time_distribution(u)', G.inter_event_time_distribution(u), [e[3] for e in st if e[0] == u or e[1] == u])
+            cmp('inter_event_time_distribution(u=u)', G.inter_event_time_distribution(u=u), [e[3] for e in st if e[0] == u or e[1] == u])
+            cmp('dn.inter_event_time_distribution(G, u)', dn.inter_event_time_distribution(G, u), [e[3] for e in st if e[0] == u or e[1] == u])
             n_checked += 1
             if directed:
                 cmp('inter_in_event_time_distribution(u)', G.inter_in_event_time_distribution(u), [e[3] for e in st if e[1] == u])
@@ -157,7 +159,7 @@ def state_fn(conf, hist, G, M):
 def run(tier, seed):
     params = {'u1_depth': 3, 'u2_depth': 2, 'two_depth': 3, 'u3_depth': 1} if tier == 'quick' else {'u1_depth': 4}
     return base.run_state_property(
-        PROP, LEVEL, state_fn, tier, seed, pure=True, reduced=base.REDUCED, params=params, flavours=(0, 1, 2),
+        PROP, LEVEL, state_fn, tier, seed, pure=True, reduced=base.REDUCED, params=params, flavours=(0, 1, 2, 3, 6),
         vacuity={'states_with_stats': 100, 'states_partial_coverage': 50}, sample_fn=base.default_samples,
         assumptions=['node_density uses the denominator pinned by test_density (sum over all nodes v, u itself included)',
                      'ratio measures whose definition has a zero denominator that the library does not guard are skipped',
